@@ -21,7 +21,7 @@ from vmon.refmodels import tf_ref
 PROPERTY = "C15"
 LEVEL = "exploration"
 RULE = ("random configurations: second-order {Shampoo (x64 on), Sketchy (x64 off)} x block {2,3,4} x merge limit {2,4,6,100} x statistics/"
-        "preconditioner frequencies 1..3 x decay {1,.9,.99} x graft {none,sgd,rmsprop} x start {0,1,3} x skip rules x momentum (ema, nesterov, decay "
+        "preconditioner frequencies 1..3 x decay {1,.9,.99} x graft {none,sgd,rmsprop,adafactor} x start {0,1,3} x skip rules x momentum (ema, nesterov, decay "
         "{0,.5,.9}) x weight decay before/after momentum x {constant, halving-schedule} lr x trees of 1-2 leaves x 6-step histories incl. per-block "
         "scale disparity 1e-3..1e3; plus lr-linearity pairs and merge/pad metamorphic pairs.  evaluations = transitions compared; non-trivial = "
         "case with a preconditioned (post-start, unmasked) transition; distinct by hash of the case")
@@ -52,7 +52,8 @@ def gen_case(rng, second):
   o = {"second": second, "merge_dims": int(rng.choice([2, 4, 6, 100])), "block": int(rng.choice([2, 3, 4])),
        "sfreq": int(rng.choice([1, 1, 2])), "pfreq": int(rng.choice([1, 2, 3])), "decay": float(rng.choice([1.0, 0.9, 0.99])),
        "rank": int(rng.choice([1, 2, 3])), "sk_eps": float(rng.choice([1e-7, 1e-3, 0.0])), "sk_rel_eps": bool(rng.integers(0, 2)),
-       "graft": str(rng.choice(["none", "sgd", "rmsprop"])), "gdecay": float(rng.choice([1.0, 0.9])), "geps": 1e-8,
+       "graft": str(rng.choice(["none", "sgd", "rmsprop", "adafactor"])), "gdecay": float(rng.choice([1.0, 0.9])), "geps": 1e-8,
+       "af_min_dim": int(rng.choice([2, 128])), "af_param_scale": bool(rng.integers(0, 2)), "af_clip": float(rng.choice([1.0, 2.0])),
        "start": int(rng.choice([0, 1, 3])), "skip_rank1": bool(rng.integers(0, 2)), "dim_gt": int(rng.choice([4096, 4096, 7])),
        "ema": bool(rng.integers(0, 2)), "nesterov": bool(rng.integers(0, 2)), "mdecay": float(rng.choice([0.0, 0.9, 0.5])),
        "wd": float(rng.choice([0.0, 0.1])), "wd_after": bool(rng.integers(0, 2)), "lr": float(rng.choice([0.1, 1.0])),
@@ -73,7 +74,10 @@ def gen_case(rng, second):
 
 def build(o, lr_mult=1.0):
   from precondition.tearfree import grafting, momentum, optimizer as tfo, second_order, shampoo as tshampoo, sketchy
-  gt = {"none": grafting.GraftingType.NONE, "sgd": grafting.GraftingType.SGD, "rmsprop": grafting.GraftingType.RMSPROP}[o["graft"]]
+  gt = {"none": grafting.GraftingType.NONE, "sgd": grafting.GraftingType.SGD, "rmsprop": grafting.GraftingType.RMSPROP,
+        "adafactor": grafting.GraftingType.ADAFACTOR}[o["graft"]]
+  if o["graft"] == "adafactor" and o["gdecay"] == 1.0:
+    o["gdecay"] = 0.9      # AdaFactor needs a decay in (0, 1)
   if o["second"] == "sketchy":
     so = second_order.Options(merge_dims=o["merge_dims"], second_order_type=second_order.SecondOrderType.SKETCHY, shampoo_options=None,
                               sketchy_options=sketchy.Options(rank=o["rank"], second_moment_decay=o["decay"], epsilon=o["sk_eps"],
@@ -82,7 +86,9 @@ def build(o, lr_mult=1.0):
     so = second_order.Options(merge_dims=o["merge_dims"], shampoo_options=tshampoo.Options(
         block_size=o["block"], update_preconditioners_freq=o["pfreq"], update_statistics_freq=o["sfreq"], second_moment_decay=o["decay"]))
   opts = tfo.TearfreeOptions(
-      grafting_options=grafting.Options(grafting_type=gt, second_moment_decay=o["gdecay"] if o["graft"] == "rmsprop" else 0.0,
+      grafting_options=grafting.Options(grafting_type=gt, second_moment_decay=o["gdecay"] if o["graft"] in ("rmsprop", "adafactor") else 0.0,
+                                        min_dim_size_to_factor=o.get("af_min_dim", 128), multiply_by_parameter_scale=o.get("af_param_scale", True),
+                                        clipping_threshold=o.get("af_clip", 1.0),
                                         start_preconditioning_step=o["start"], epsilon=o["geps"],
                                         skip_preconditioning_rank1=o["skip_rank1"], skip_preconditioning_any_dim_gt=o["dim_gt"]),
       second_order_options=so,
@@ -229,6 +235,9 @@ def check_meta(case, rec):
   pairs = [((2, 3, 4), (6, 4)), ((2, 2, 5), (4, 5)), ((6, 1, 4), (6, 4)), ((1, 5, 3), (5, 3)), ((2, 3), (6,)), ((3, 2, 4), (6, 4)), ((4, 1, 1, 3), (4, 3))]
   a, b = pairs[int(rng.integers(0, len(pairs)))]
   o = dict(o, merge_dims=max(o["merge_dims"], 6), skip_rank1=False, dim_gt=4096)
+  if o["graft"] == "adafactor":
+    # AdaFactor factors the accumulator along the axes of the ORIGINAL shape, so it is legitimately presentation-dependent
+    o["graft"] = "rmsprop"
   # both shapes must merge to the same merged shape
   if tf_ref.merged_shape(a, o["merge_dims"]) != tf_ref.merged_shape(b, o["merge_dims"]):
     rec.skip("meta-shapes-merge-differently")
